@@ -9,6 +9,7 @@
   arithmetic) and over all values of the stated domain.
 -/
 import Nervus.Proofs.Logic
+import Nervus.Proofs.ListEq
 set_option exponentiation.threshold 4096
 namespace Nervus.Props.C23
 open Nervus Nervus.Eval Nervus.Spec Value
@@ -74,6 +75,41 @@ theorem eq_refl (a : Value) (wa : a.wf = true) (ca : clean a = true) : cypherEqu
 /-- the result is always `true`, `false` or `null` -/
 theorem eq_three_valued (a b : Value) : isTri (cypherEquals a b) = true := cypherEquals_tri a b
 
+/-! ### `=` on lists and maps: the Kleene AND of the element equalities, independent of position -/
+
+/-- `[x₁,…,xₙ] = [y₁,…,yₙ]` is `(x₁ = y₁) AND … AND (xₙ = yₙ)` in three-valued logic (a `false` anywhere wins over
+    a `null` anywhere); lists of different lengths are unequal — ALL values -/
+theorem list_eq_is_kleene_and (xs ys : List Value) :
+    cypherEquals (.list xs) (.list ys) =
+      if xs.length = ys.length then triValue (Spec.kleeneAll (pairTris (xs.zip ys))) else .bool false := by
+  by_cases h : xs.length = ys.length
+  · have e : (xs.length != ys.length) = false := by simpa using h
+    rw [if_pos h]
+    simp only [cypherEquals, e, Bool.false_eq_true, if_false]
+    exact seq_is_kleene xs ys h
+  · have e : (xs.length != ys.length) = true := by simpa using h
+    simp [cypherEquals, e, h]
+/-- the same for maps with the same keys (well-formed, i.e. key-sorted maps); different key sets are unequal -/
+theorem map_eq_is_kleene_and (l r : List (Str × Value)) (hl : keysSorted l = true) (hr : keysSorted r = true) :
+    cypherEquals (.map l) (.map r) =
+      if l.length = r.length ∧ keysOf l = keysOf r then
+        triValue (Spec.kleeneAll (pairTris ((valsOf l).zip (valsOf r)))) else .bool false := by
+  rw [cypherEquals_map l r hl hr]
+  by_cases h : l.length = r.length ∧ keysOf l = keysOf r
+  · rw [if_pos h, if_pos h]; exact seq_is_kleene _ _ (by simpa [valsOf] using h.1)
+  · rw [if_neg h, if_neg h]
+/-- **position independence**: permuting the (left, right) element pairs does not change the result -/
+theorem list_eq_permutation_invariant (ps qs : List (Value × Value)) (h : ps.Perm qs) :
+    cypherEquals (.list (ps.map Prod.fst)) (.list (ps.map Prod.snd)) =
+      cypherEquals (.list (qs.map Prod.fst)) (.list (qs.map Prod.snd)) := by
+  rw [ce_list_of_pairs, ce_list_of_pairs]
+  unfold pairTris
+  rw [kleeneAll_perm (h.map _)]
+/-- e.g. `[null,1] = [null,2]` is `false`, exactly like `[1,null] = [2,null]` -/
+example : cypherEquals (.list [.null, .int 1]) (.list [.null, .int 2]) = .bool false ∧
+    cypherEquals (.list [.int 1, .null]) (.list [.int 2, .null]) = .bool false ∧
+    cypherEquals (.list [.null, .int 1]) (.list [.null, .int 1]) = .null := by decide
+
 /-! ### numbers: Int/Int, Int/Float, Float/Float compared as the exact rationals they denote -/
 
 theorem eq_numbers_exact (a b : Value) (ha : isNum a = true) (hb : isNum b = true) (wa : a.wf = true)
@@ -94,8 +130,9 @@ theorem lt_gt_converse (E : Env) (a b : Value) :
   ⟨cv_conv E .lt a b, cv_conv E .le a b⟩
 
 /-- **C23_partial**: on every set of well-formed null/NaN-free values outside the two known triggers
-    (`lawDomain`: plain values — C23-list-nonplain-order; strings compared as text —
-    C23-temporal-string-compare): `<=` is `<` or `=`, `>=` is `>` or `=` … -/
+    (`lawDomain`: plain values — C23-list-nonplain-order; on the strings present "ordered equal" is text equality
+    and the comparison is transitive — C23-temporal-string-compare; strings that are temporal values of one kind with
+    different keys are INSIDE the domain and ordered chronologically): `<=` is `<` or `=`, `>=` is `>` or `=` … -/
 theorem C23_partial_le_iff (E : Env) (vs : List Value) (h : lawDomain E vs = true) (a b : Value)
     (ha : a ∈ vs) (hb : b ∈ vs) :
     compareValues E .le a b = orEq (compareValues E .lt a b) (cypherEquals a b) ∧
